@@ -1,4 +1,5 @@
 import NanoVerif.Props.C01
+import NanoVerif.Proofs.ColrSvg
 /-
 C02 — OT-SVG glyph documents render the same picture as their sources (per-element theorems).
 -/
